@@ -270,3 +270,39 @@ func specHasHandler(op string) bool { _, ok := opcodeEvalFns[op]; return ok }
 //@ ensures[loc.none@C03] !vcCalled("Emit") ==> env.LOC == old(env.LOC)
 //@ ensures[nodrop@C07] vcCalled("Emit") || vcLoggedError()
 //@ assigns Pass1.LOC, ocodeClient.Ocodes, OperandPegImpl.bitMode, OperandType[]
+
+//@ func processOUT
+//@ props C03 C07
+//@ option no-panic-obligations
+//@ requires env != nil && env.Client != nil && env.AsmDB != nil
+//@ calls[mode@C03] (*ng_operand.OperandPegImpl).WithBitMode : arg1 == env.BitMode
+//@ calls[size@C03] (*asmdb.InstructionDB).FindMinOutputSize : arg1 == "OUT" && vcSame(arg2, vcResult[ng_operand.Operands]("WithBitMode", 0))
+//@ ensures[loc@C03] vcCalled("Emit") ==> vcCalled("FindMinOutputSize") && env.LOC == old(env.LOC)+int32(vcResult[int]("FindMinOutputSize", 0))
+//@ ensures[loc.none@C03] !vcCalled("Emit") ==> env.LOC == old(env.LOC)
+//@ ensures[nodrop@C07] vcCalled("Emit") || vcLoggedError()
+//@ assigns Pass1.LOC, ocodeClient.Ocodes, OperandPegImpl.bitMode, OperandType[]
+
+// IN, PUSH, POP: when the table lookup fails these handlers go on with a guessed size (0 resp. 1): only
+// the successful lookup is pinned here; the guess is wrong for PUSH FS/GS, POP FS/GS (DESIGN.md, C03).
+
+//@ func processIN
+//@ props C03 C07
+//@ option no-panic-obligations
+//@ requires env != nil && env.Client != nil && env.AsmDB != nil
+//@ calls[mode@C03] (*ng_operand.OperandPegImpl).WithBitMode : arg1 == env.BitMode
+//@ calls[size@C03] (*asmdb.InstructionDB).FindMinOutputSize : arg1 == "IN" && vcSame(arg2, vcResult[ng_operand.Operands]("WithBitMode", 0))
+//@ ensures[loc@C03] vcCalled("Emit") && vcResult[error]("FindMinOutputSize", 1) == nil ==> env.LOC == old(env.LOC)+int32(vcResult[int]("FindMinOutputSize", 0))
+//@ ensures[loc.none@C03] !vcCalled("Emit") ==> env.LOC == old(env.LOC)
+//@ ensures[nodrop@C07] vcCalled("Emit") || vcLoggedError()
+//@ assigns Pass1.LOC, ocodeClient.Ocodes, OperandPegImpl.bitMode, OperandType[]
+
+//@ func processPushPopCommon
+//@ props C03 C07
+//@ option no-panic-obligations
+//@ requires env != nil && env.Client != nil && env.AsmDB != nil
+//@ calls[mode@C03] (*ng_operand.OperandPegImpl).WithBitMode : arg1 == env.BitMode
+//@ calls[size@C03] (*asmdb.InstructionDB).FindMinOutputSize : arg1 == instName && vcSame(arg2, vcResult[ng_operand.Operands]("WithBitMode", 0))
+//@ ensures[loc@C03] vcCalled("Emit") && vcResult[error]("FindMinOutputSize", 1) == nil ==> env.LOC == old(env.LOC)+int32(vcResult[int]("FindMinOutputSize", 0))
+//@ ensures[loc.none@C03] !vcCalled("Emit") ==> env.LOC == old(env.LOC)
+//@ ensures[nodrop@C07] vcCalled("Emit") || vcLoggedError()
+//@ assigns Pass1.LOC, ocodeClient.Ocodes, OperandPegImpl.bitMode, OperandType[]
